@@ -1,5 +1,5 @@
 INIT Init
 NEXT Next
 CONSTANTS
-  BurstLens = {1, 2, 127, 128, 255, 256, 257, 511, 512, 513, 1024, 65535, 65536, 65537}
+  BurstLens = {0, 1, 2, 127, 128, 255, 256, 257, 511, 512, 513, 1023, 1024, 1025, 4095, 4096, 4097, 65535, 65536, 65537}
 CHECK_DEADLOCK FALSE
